@@ -1038,7 +1038,11 @@ func runDeadline(o *vrt.Obs, p params) {
 				if out.conn != nil {
 					out.conn.Close()
 				}
-			case <-time.After(30 * time.Second):
+			case <-time.After(5 * time.Second):
+				// not even the torn-down server brought it back: the dial goroutine is lost (and may be burning a processor);
+				// nothing else is judged in this process after this case
+				o.Count("dial_not_returned_5s_after_the_server_was_torn_down", 1)
+				o.Poisoned = true
 			}
 			continue
 		}
